@@ -36,7 +36,13 @@ impl<T: Flat> ToXdr for T {
 /// feature `xdrdigest`: the table behind the handles (own table, compared over exactly `T::W` words)
 #[cfg(feature = "xdrdigest")]
 pub const NX: usize = 6;
-#[cfg(feature = "xdrdigest")]
+/// word capacity of one serialised value (xw48 / xw128: additive features for profiles with longer vectors, e.g. a
+/// `Vec<Signer>` of capacity 8 = 41 words, of capacity 21 = 106 words; C20 limit harnesses); default unchanged
+#[cfg(all(feature = "xdrdigest", feature = "xw128"))]
+pub const XW: usize = 128;
+#[cfg(all(feature = "xdrdigest", feature = "xw48", not(feature = "xw128")))]
+pub const XW: usize = 48;
+#[cfg(all(feature = "xdrdigest", not(any(feature = "xw48", feature = "xw128"))))]
 pub const XW: usize = 24;
 #[cfg(feature = "xdrdigest")]
 #[derive(Clone, Copy)]
